@@ -890,7 +890,21 @@ func judgePanicTwin(rep *lib.Report, c *lib.Ctx, ln *printerLine, res *realResul
 	// ... and on the visible side: a contained panic does not change how the text after the report is classified
 	// (what follows it is as visible as it is in the twin; the report's own frame is visible, its payload as declared)
 	{
-		vpat := regexp.QuoteMeta(string(lib.DeleteEnvelopes(tr.Out)))
+		// where a method's normal result would be unsafe text (String, Error, GoString), its placeholder sits inside an
+		// envelope in the twin; the report of a panic there is written after the unsafe bracket has been left, so it is
+		// visible: the placeholder is lifted out of its envelope before the visible texts are compared (not under
+		// Unsafe(), where the report is enveloped like everything else)
+		twinOut := tr.Out
+		if !lib.HasKind(ln.C.Ts, "unsafe") {
+			for k := range tc.Twins {
+				ph := []byte(lib.TwinPlaceholder(k))
+				if i := bytes.Index(twinOut, ph); i >= 0 && bytes.Count(twinOut[:i], lib.StartM) > bytes.Count(twinOut[:i], lib.EndM) {
+					lifted := append(append(append([]byte{}, lib.EndM...), ph...), lib.StartM...)
+					twinOut = append(append(append([]byte{}, twinOut[:i]...), lifted...), twinOut[i+len(ph):]...)
+				}
+			}
+		}
+		vpat := regexp.QuoteMeta(string(lib.DeleteEnvelopes(twinOut)))
 		okv := true
 		for k, tw := range tc.Twins {
 			ph := regexp.QuoteMeta(lib.TwinPlaceholder(k))
@@ -903,7 +917,7 @@ func judgePanicTwin(rep *lib.Report, c *lib.Ctx, ln *printerLine, res *realResul
 		if vre, err := regexp.Compile(`^(?s:` + vpat + `)$`); okv && err == nil {
 			if got := lib.DeleteEnvelopes(res.Out); !vre.Match(got) {
 				rep.Violate("printer:panic-changes-classification", fmt.Sprintf("%s: with envelopes deleted the output is %q; the twin (placeholders where methods would panic) shows %q: the text around the report is classified differently",
-					caseString(c, ln.C), got, lib.DeleteEnvelopes(tr.Out)), kase)
+					caseString(c, ln.C), got, lib.DeleteEnvelopes(twinOut)), kase)
 			}
 		}
 	}
